@@ -80,6 +80,9 @@ func TestVerif_C16(t *testing.T) {
 		full = append(full, vfOp{Op: "mkds", Path: fmt.Sprintf("/g/c%02d", i), Type: "u8", Dims: []uint64{1}})
 	}
 	states = append(states, full)
+	// ... and with all 32 entries taken: the next creation in /g is refused for lack of room
+	full32 := append(append([]vfOp{}, full...), vfOp{Op: "mkds", Path: "/g/c31", Type: "u8", Dims: []uint64{1}})
+	states = append(states, full32)
 	heapFull := []vfOp{mkG, mkX}
 	for i := 0; i < 3; i++ {
 		heapFull = append(heapFull, vfOp{Op: "mkgroup", Path: "/g/" + strings.Repeat(string(rune('p'+i)), 59)})
@@ -158,6 +161,7 @@ func TestVerif_C16(t *testing.T) {
 		{{Op: "mkds", Path: "/x/sub", Type: "u8", Dims: []uint64{2}}}, // under a dataset name: must fail in both runs
 		{{Op: "mkgroup", Path: "/r/subg"}},
 		{{Op: "mkgroup", Path: "/lx2"}}, // a name a failed hard link may have taken
+		{{Op: "mkds", Path: "/g/ovf/x", Type: "u8", Dims: []uint64{2}}}, // below a group whose creation may have been refused for lack of room in /g
 		// two-call follow-ups on the object the failing call was aimed at: state a failed call
 		// leaves behind on a handle shows only when later calls combine
 		{{Op: "write", Path: "/r", Pat: 2}, {Op: "attr", Path: "/r", Name: "z", Value: "i32b"}},
@@ -200,7 +204,7 @@ func TestVerif_C16(t *testing.T) {
 			}
 		}
 		// capacity: one more child in a full group / a name that does not fit the heap / oversized attribute
-		out = append(out, vfOp{Op: "mkds", Path: "/g/overflow", Type: "u8", Dims: []uint64{1}},
+		out = append(out, vfOp{Op: "mkgroup", Path: "/g/ovf"}, vfOp{Op: "mkds", Path: "/g/overflow", Type: "u8", Dims: []uint64{1}},
 			vfOp{Op: "mkgroup", Path: "/g/" + strings.Repeat("y", 120)},
 			vfOp{Op: "attr", Path: "/x", Name: "huge", Value: "s200"},
 			// the same on a name that exists already (size-changing overwrite that does not fit)
